@@ -20,11 +20,11 @@ structure ReqTok where
   commit : Bool
   resource : String
   data : String
-  userFails : Bool
+  user : Seata.TCC.UserOutcome
 
 def parseReq (t : String) : Option ReqTok :=
   match t.splitOn ":" with
-  | ["q", mid, k, res, d, uf] => mid.toNat?.map fun m => { msgId := m, commit := k == "C", resource := res, data := d, userFails := uf == "1" }
+  | ["q", mid, k, res, d, uf] => mid.toNat?.map fun m => { msgId := m, commit := k == "C", resource := res, data := d, user := if uf == "1" then .fails else if uf == "2" then .alreadyApplied else .ok }
   | _ => none
 
 def showEv : Ev → String
@@ -46,7 +46,7 @@ def handle (ws : List String) : String :=
     let p2 := phaseTwoAll registered (reqs.map fun q =>
       { msgId := q.msgId, commit := q.commit, xid := "X", branchId := 1, resource := q.resource,
         data := (match q.data with | "c" => AppData.ctx cap | "e" => .empty | "n" => .noKey | _ => .malformed),
-        userFails := q.userFails })
+        user := q.user })
     let _ := ran
     joinSp ((tr ++ p2).map showEv)
   | _ => "bad-op"
